@@ -83,6 +83,18 @@ CLAIMED = {
              'and multiple event loops are not modelled.',
         technique='Coq proof (induction over schedules: results/trace conservation; sequential driver) + exhaustive small-schedule correspondence by vm_compute',
         design='6 C10'),
+    'C11': dict(
+        text='The client halves, retry loops and tracing wrappers are each ONE Gallina definition serving both kinds, so every C07-C09/C19 theorem '
+             'holds for both; for the dispatcher the places where the two texts differ are modelled separately and proved to agree: the '
+             'isinstance filter and the truthiness filter keep the same responses (against truthiness facts regenerated from the live classes), '
+             'the gather / sequential-await driver under any schedule assembles what the generator does, and the awaited-if-coroutine call '
+             'serves plain functions with the same outcome. Correspondence is paired: both real halves are driven on every case of the '
+             'C01-C03, C12 (dispatchers) and C07-C09, C19 (clients) corpora, each compared with the single model and with each other.',
+        note='trusted: Coq kernel + vm_compute; the trusted bases of the underlying properties; that the twin texts differ only by async/await and '
+             'the sleep primitive is checked syntactically for retry/retry_async on every run (Consts.retry_twins_textually_equal) and otherwise '
+             'rests on the paired correspondence.',
+        technique='Coq proof (filter / driver agreement lemmas over the shared model) + paired sync/async correspondence by vm_compute',
+        design='6 C11'),
     'C12': dict(
         text='Theorems for stacks of ANY height: with no short-circuit the trace is Enter 0..k-1, inner handler on the fully rewritten '
              'request, Exit k-1..0 and the chain returns what the outermost returns; a short-circuiting middleware makes the outcome '
